@@ -34,9 +34,9 @@ def _model_dict(m, limit=400):
     return out
 
 
-PORTFOLIO = [({'smt.mbqi': False, 'smt.arith.nl': False}, 0.2),
-             ({'smt.mbqi': False}, 0.3),
-             ({}, 0.5)]
+PORTFOLIO = [({'smt.mbqi': False}, 0.4),
+             ({'smt.mbqi': False, 'smt.arith.nl': False}, 0.2),
+             ({}, 0.4)]
 
 
 def _check(args):
@@ -110,7 +110,9 @@ def discharge(obls, timeout_s=10, procs=None, use_cvc5=True, log=None):
     procs = procs or min(16, os.cpu_count() or 4)
     jobs = []
     for n, ob in enumerate(obls):
-        jobs.append(("%d" % n, to_smt2(ob), int(timeout_s * 1000), ob.expect_sat, True))
+        # cover (vacuity) obligations get a short budget: a native witness is the fallback
+        budget = min(timeout_s, 3) if ob.expect_sat else timeout_s
+        jobs.append(("%d" % n, to_smt2(ob), int(budget * 1000), ob.expect_sat, True))
     results = {}
     if len(jobs) <= 2 or procs == 1:
         for j in jobs:
